@@ -7,6 +7,8 @@
                              have either value) every operation on a table satisfying `Inv` completes with probe
                              fuel = capacity and re-establishes `Inv`; hence OutOfFuel is unreachable from the
                              empty map for every operation list;
+   * rehash_entries, rehash_in_place_entries : rehash keeps, for every predicate, the number of stored pairs
+                             satisfying it (= the multiset of stored pairs);
    * value_total, values_total : lookups terminate on EVERY table (no invariant needed);
    * ior_pinned_no_exit, values_pinned_no_exit : in the pinned revision the probe loops never exit, whatever the
                              fuel, on tables without Empty slot (used by the concrete witnesses in Props/C19.v). *)
